@@ -567,6 +567,7 @@ pub fn check_main(make: &dyn Fn(&str) -> Option<Box<dyn Engine>>, prop: &str, ti
     let mut new_violations = 0;
     let mut first_new: Option<PathBuf> = None;
     let mut seen_fp: BTreeSet<String> = BTreeSet::new();
+    let mut unreproduced = 0u64;
     for (i, v) in violations.iter().enumerate() {
         let fp = v["fingerprint"].as_str().unwrap_or("").to_string();
         if let Some(k) = known.iter().find(|k| k.property == prop && k.fingerprint == fp) {
@@ -581,30 +582,44 @@ pub fn check_main(make: &dyn Fn(&str) -> Option<Box<dyn Engine>>, prop: &str, ti
         let path = cex_dir.join(format!("{prop}.{tier}.{i}.json"));
         let replay = json!({"property": prop, "case": v["case"], "msg": v["msg"], "fingerprint": fp});
         std::fs::write(&path, serde_json::to_vec_pretty(&replay).unwrap()).unwrap();
-        // Confirm once.
-        let st = Command::new(&exe)
-            .arg("replay")
-            .arg(&path)
-            .stdout(Stdio::null())
-            .stderr(Stdio::null())
-            .status();
-        match st {
-            Ok(s) if s.code() == Some(1) => {
-                new_violations += 1;
-                println!("VIOLATION property={prop} replay={}", path.display());
-                println!("  {}", v["msg"].as_str().unwrap_or(""));
-                if first_new.is_none() {
-                    first_new = Some(path);
+        // Confirm by replaying the stored case in a fresh process (up to three times: a failure
+        // that depends on what a misbehaving store happens to read back may not fail every time).
+        let mut confirmed = false;
+        let mut last = String::new();
+        for _ in 0..3 {
+            let st = Command::new(&exe)
+                .arg("replay")
+                .arg(&path)
+                .stdout(Stdio::null())
+                .stderr(Stdio::null())
+                .status();
+            match st {
+                Ok(s) if s.code() == Some(1) => {
+                    confirmed = true;
+                    break;
                 }
-            }
-            other => {
-                eprintln!(
-                    "MACHINERY: violation did not reproduce on replay ({other:?}); case {} msg {}",
-                    v["case"], v["msg"]
-                );
-                return 2;
+                other => last = format!("{other:?}"),
             }
         }
+        if confirmed {
+            new_violations += 1;
+            println!("VIOLATION property={prop} replay={}", path.display());
+            println!("  {}", v["msg"].as_str().unwrap_or(""));
+            if first_new.is_none() {
+                first_new = Some(path);
+            }
+        } else {
+            unreproduced += 1;
+            eprintln!(
+                "MACHINERY: violation did not reproduce on 3 replays ({last}); case {} msg {}",
+                v["case"], v["msg"]
+            );
+            let _ = std::fs::remove_file(&path);
+        }
+    }
+    if unreproduced > 0 && new_violations == 0 {
+        // nothing trustworthy to report and something unexplained happened: not a verdict
+        return 2;
     }
     let distinct_nontrivial = nontrivial.len() as u64;
     let exhaustive = skipped == 0 && !any_timeout;
